@@ -232,6 +232,7 @@ func FamilyUpdate(thorough bool) []*Conv {
 		{"O", "[]int", "[]int", ""},
 		{"P", "map[string]int", "map[string]int", ""},
 		{"Q", "PFXQs", "PFXQs", "type PFXQs struct {\n\tX int\n}"},
+		{"R", "*PFXQs", "*PFXQs", ""},
 	}
 	setC := []updField{ // named container types go through generated sub-methods
 		{"A", "int", "int", ""},
@@ -368,6 +369,24 @@ func FamilyUpdate(thorough bool) []*Conv {
 			CLI:     ov.cli, ConvLines: ov.conv,
 			MethodLines: mlines,
 			Spec:        &Spec{Update: &u, Pairs: map[string]*PairSpec{"PFXIn→PFXOut": {Fields: map[string]*FieldSpec{"Keep": {Ignore: true}, "Only": {Ignore: true}}}}},
+		})
+	}
+	// the struct ARG points to may be of an unnamed type: the method's field settings are its settings all the same
+	for i, srcPtr := range []bool{false, true} {
+		n++
+		src := "PFXIn"
+		if srcPtr {
+			src = "*PFXIn"
+		}
+		tgt := "struct {\n\tName string\n\tSecret string\n\tTitle string\n}"
+		out = append(out, &Conv{
+			ID: fmt.Sprintf("update/unnamed_target_struct_settings/ptr%v", srcPtr), Family: "update", Format: []string{"struct", "function", "variable"}[(n+i)%3],
+			Params: "source " + src + ", target *" + tgt, Results: "",
+			Decls:       "type PFXIn struct {\n\tName string\n\tSecret string\n}\n",
+			MethodLines: []string{"update target", "ignore Secret", "map Name Title"},
+			Spec: &Spec{Update: &UpdateSpec{}, Pairs: map[string]*PairSpec{
+				"PFXIn→struct{Name string; Secret string; Title string}": {Fields: map[string]*FieldSpec{"Secret": {Ignore: true}, "Title": fs("Name")}},
+			}},
 		})
 	}
 	// *T -> U is generated only with useZeroValueOnPointerInconsistency - in update methods as everywhere else
@@ -915,6 +934,16 @@ func FamilyDefault(thorough bool) []*Conv {
 			Bounds: &Bounds{MaxSlice: 1, MaxMap: 1, RecDepth: 1},
 		})
 	}
+	// **T -> *U with default:update: the instance FUNC returned is the one that is updated and returned
+	out = append(out, &Conv{
+		ID: "default/pointer_to_pointer_source_upd", Family: "default", Format: "struct",
+		Params: "source **PFXIn", Results: "*PFXOut",
+		Decls:       "type PFXIn struct {\n\tName string\n\tAge int\n}\ntype PFXOut struct {\n\tName string\n\tAge int\n}\nfunc PFXNew() *PFXOut { return &PFXOut{} }\n",
+		ConvLines:   []string{"useZeroValueOnPointerInconsistency"},
+		MethodLines: []string{"default PFXNew", "default:update"},
+		Spec:        &Spec{ZeroOnNil: true, Update: &UpdateSpec{DefaultFn: "PFXNew", DefaultUpdate: true}},
+		Bounds:      &Bounds{MaxSlice: 1, MaxMap: 1, RecDepth: 1},
+	})
 	// default on a T -> *U method whose pointee is a slice or a map: FUNC is called, a nil source returns its result
 	for i, pc := range []struct{ name, src, tgt string }{
 		{"slice", "[]PFXS", "*[]PFXT"}, {"map", "map[string]int", "*map[string]int"},
